@@ -118,20 +118,20 @@ fn nak_split(rel: &[(u64, u64)], fixed_base: Option<u64>) {
 // the real arm (the solver decides nothing beyond what a unit test would; they are kept because no test of the
 // repository exercises these shapes); the symbolic-base instances live in the thorough tier.
 //# funcs=SendTransaction::process_pdu(Nak); bound=CONCRETE: 1 request of 7 bytes at offset 0 and at 2^40+1 (one full and one partial piece, segment size 4); stubs=S1,S2,S3,S6
-th!(#[kani::stub(<std::hash::DefaultHasher as std::hash::Hasher>::finish, hasher_finish_stub)] c07_q_nak_split_1, 8, {
+th!(#[kani::stub(<std::hash::DefaultHasher as std::hash::Hasher>::finish, hasher_finish_stub)] c07_x_nak_split_1, 8, {
     nak_split(&[(0, 7)], Some(0));
     nak_split(&[(0, 7)], Some((1 << 40) + 1));
 });
 //# funcs=SendTransaction::process_pdu(Nak); bound=CONCRETE: the 0-0 metadata marker followed by a request for bytes 0..3 (same start): both must be queued; stubs=S1,S2,S3,S6
-th!(#[kani::stub(<std::hash::DefaultHasher as std::hash::Hasher>::finish, hasher_finish_stub)] c07_q_nak_split_same_start, 8, { nak_split(&[(0, 0), (0, 3)], Some(0)) });
+th!(#[kani::stub(<std::hash::DefaultHasher as std::hash::Hasher>::finish, hasher_finish_stub)] c07_x_nak_split_same_start, 8, { nak_split(&[(0, 0), (0, 3)], Some(0)) });
 //# funcs=SendTransaction::process_pdu(Nak); bound=CONCRETE: the same 3-byte request twice: queued once; stubs=S1,S2,S3,S6
-th!(#[kani::stub(<std::hash::DefaultHasher as std::hash::Hasher>::finish, hasher_finish_stub)] c07_q_nak_split_duplicate, 8, { nak_split(&[(0, 3), (0, 3)], Some(8)) });
+th!(#[kani::stub(<std::hash::DefaultHasher as std::hash::Hasher>::finish, hasher_finish_stub)] c07_x_nak_split_duplicate, 8, { nak_split(&[(0, 3), (0, 3)], Some(8)) });
 //# funcs=SendTransaction::process_pdu(Nak); bound=1 request of 7 bytes at a symbolic 64-bit offset < 2^62 (may be inconclusive: > 10 min); stubs=S1,S2,S3,S6
-th!(#[kani::stub(<std::hash::DefaultHasher as std::hash::Hasher>::finish, hasher_finish_stub)] c07_t_nak_split_1_symbolic_base, 8, { nak_split(&[(0, 7)], None) });
+th!(#[kani::stub(<std::hash::DefaultHasher as std::hash::Hasher>::finish, hasher_finish_stub)] c07_x_nak_split_1_symbolic_base, 8, { nak_split(&[(0, 7)], None) });
 //# funcs=SendTransaction::process_pdu(Nak); bound=empty + 3-byte request at the same symbolic offset (may be inconclusive: > 10 min); stubs=S1,S2,S3,S6
-th!(#[kani::stub(<std::hash::DefaultHasher as std::hash::Hasher>::finish, hasher_finish_stub)] c07_t_nak_split_same_start_symbolic_base, 8, { nak_split(&[(0, 0), (0, 3)], None) });
+th!(#[kani::stub(<std::hash::DefaultHasher as std::hash::Hasher>::finish, hasher_finish_stub)] c07_x_nak_split_same_start_symbolic_base, 8, { nak_split(&[(0, 0), (0, 3)], None) });
 //# funcs=SendTransaction::process_pdu(Nak); bound=CONCRETE: 2 overlapping, unsorted requests (4..12, 0..8); stubs=S1,S2,S3,S6
-th!(#[kani::stub(<std::hash::DefaultHasher as std::hash::Hasher>::finish, hasher_finish_stub)] c07_t_nak_split_overlap, 8, { nak_split(&[(4, 12), (0, 8)], Some(0)) });
+th!(#[kani::stub(<std::hash::DefaultHasher as std::hash::Hasher>::finish, hasher_finish_stub)] c07_x_nak_split_overlap, 8, { nak_split(&[(4, 12), (0, 8)], Some(0)) });
 
 // ---------------------------------------------------------------- first pass
 fn first_pass(l: usize, s: u16, c: usize) {
